@@ -8,7 +8,8 @@
  *   SI_EXIT      exit status (default 0);  SI_KILL  signal number to die from
  *   SI_EXEC=1    finally exec argv[1..] (checkpassword success)
  *   SI_PASS=path when the scripted exit status of this run is 0, exec `path` at once, before anything is read (a filter that lets the run through)
- *   SI_EXIT_SEQ  comma list of exit statuses consumed one per run (counter kept in <SI_DIR>/seq)
+ *   SI_EXIT_SEQ  comma list of exit statuses consumed one per run (counter kept in <SI_DIR>/seq); an entry "k<sig>" = read descriptors 0 and 1
+ *                to the end, then die from that signal
  */
 #include <fcntl.h>
 #include <signal.h>
@@ -81,6 +82,11 @@ int main(int argc, char **argv)
     f = fopen(p, "w"); if (f) { fprintf(f, "%d", k + 1); fclose(f); }
     while (j < k && strchr(q, ',')) { q = strchr(q, ',') + 1; ++j; }
     code = atoi(q);
+    if (*q == 'k') {
+      /* "k<sig>": this run reads everything it is given (descriptors 0 and 1) and is then killed by that signal - nothing was queued */
+      size_t n; int sig = atoi(q + 1); (void)slurp(0, &n); (void)slurp(1, &n);
+      signal(sig, SIG_DFL); raise(sig); _exit(111);
+    }
   }
   /* a filter in front of the real program (QMAILQUEUE wrappers): this run is either refused with the scripted status or handed over untouched */
   if ((s = getenv("SI_PASS")) && code == 0) { execl(s, s, (char *)0); _exit(111); }
